@@ -153,7 +153,7 @@ def sc_refresh(V, n=2, forced=False):
     if V.mode == "sym":
         rng = shims.SymRNG("mb")
     else:
-        rng = shims.ScriptedRNG(V.w.get("draws", []))
+        rng = shims.ScriptedRNG(V.w)
     ctx = _ctx(atoms, rng)
     ctx.temperature = T
     maxwell_boltzmann_distribution(ctx, forced=forced)
@@ -209,7 +209,7 @@ def sc_kinetic_bookkeeping(V, n=1, vetoes=0):
     atoms, x0, m = _atoms(V, n, momenta=True)
     x0 = np.array(x0)
     T = V.real("T", lo=0, lo_strict=True, hi=5000)
-    rng = shims.SymRNG("mb") if V.mode == "sym" else shims.ScriptedRNG(V.w.get("draws", []))
+    rng = shims.SymRNG("mb") if V.mode == "sym" else shims.ScriptedRNG(V.w)
     ctx = _ctx(atoms, rng)
     ctx.temperature = T
     ctx.last_kinetic_energy = V.real("Kold", lo=0)
